@@ -40,6 +40,9 @@ Start(rec) ==
     /\ run' = rec.run /\ rep' = rec.rep /\ step' = 0
     /\ facts' = IF rec.rep = "A" THEN <<>> ELSE facts
 
+NoPreAnteGas(f) ==
+    [f EXCEPT !.res = [i \in DOMAIN f.res |-> IF f.res[i].gasWanted = 0 /\ f.res[i].code # 0 THEN [f.res[i] EXCEPT !.gasUsed = 0] ELSE f.res[i]]]
+
 Event(rec) ==
     /\ run' = run /\ rep' = rep /\ step' = rec.i
     /\ IF ENABLED Act(rec) THEN Act(rec) ELSE Report("DRIFT", "not-enabled:" \o rec.name) /\ UNCHANGED vars
@@ -49,7 +52,12 @@ Event(rec) ==
             THEN facts' = Append(facts, rec.facts)
             ELSE /\ facts' = facts
                  \* same application hash, same per-transaction results, same EndBlock events, same query answers at every height
-                 /\ Chk("C09", h' <= Len(facts) /\ rec.facts = facts[h'])
+                 /\ IF h' <= Len(facts) /\ rec.facts = facts[h'] THEN TRUE
+                    \* equal except for the gas REPORTED for transactions rejected before the ante handler installed its meter (gasWanted = 0):
+                    \* the recorded cosmos-sdk finding "preante-gas" (DESIGN.md 0.3) - one replica was restarted, the other was not
+                    ELSE IF h' <= Len(facts) /\ NoPreAnteGas(rec.facts) = NoPreAnteGas(facts[h'])
+                         THEN Report("VIOLATION", "C09:preante-gas")
+                         ELSE Report("VIOLATION", "C09")
        ELSE facts' = facts
 
 TraceNext ==
